@@ -306,23 +306,18 @@ def compare_node(case, rb, rn):
         return "inconclusive", "node:eval-count"
     if any(e.get("undrained") for e in en) and not meta.get("deadlock"):
         return "inconclusive", "node:undrained"
+    tb, tn = rb.get("trace", []), rn.get("trace", [])
     if meta.get("linkfail") or meta.get("parsefail"):
-        # node's own loader answers later imports of a graph that failed to link with an error of its own
+        # node's own loader answers later imports of a graph that failed to load or link with an error of its own
         # (not the specification's retry): only the first evaluation is comparable
-        b, n = eb[0], en[0]
-        if b["state"] != n["state"]:
-            return "differ", "%s(%s): boa %s, node %s" % (b["what"], b["name"], b["state"], n["state"])
-        if rb.get("trace", [])[b["t"][0]:b["t"][1]] != rn.get("trace", [])[n["t"][0]:n["t"][1]]:
-            return "differ", "first evaluation printed %s on boa, %s on node" % (
-                rb.get("trace", [])[b["t"][0]:b["t"][1]][:6], rn.get("trace", [])[n["t"][0]:n["t"][1]][:6])
-        return "agree", ""
+        eb, en = eb[:1], en[:1]
+        tb, tn = tb[eb[0]["t"][0]:eb[0]["t"][1]], tn[en[0]["t"][0]:en[0]["t"][1]]
     for b, n in zip(eb, en):
         if n["state"] == "pending" and not meta.get("deadlock"):
             # decided by a wall-clock timeout on the node side
             return "inconclusive", "node:pending-by-timeout"
         if b["state"] != n["state"]:
             return "differ", "%s(%s): boa %s, node %s" % (b["what"], b["name"], b["state"], n["state"])
-    tb, tn = rb.get("trace", []), rn.get("trace", [])
     has_dyn = any(meta["dyn"].values())
     if not has_dyn:
         if tb != tn:
